@@ -151,6 +151,29 @@ def progress_obligations(rule='engine-progress'):
     return obs
 
 
+def offered_regions(chk, rule='engine-offered-region'):
+    """the region recvrec_buf offers to the transport lies inside the input buffer: its length is min(ixc, ibuf_len - ixa).
+    Decided by partial evaluation with the registers pinned (a record longer than the room that is left, and a shorter one)."""
+    off = _ctx()
+    U = oblig.funit(S)
+    fn = 'recvrec_buf'
+    F = U.func(fn)
+    cv = build.const_values(['BR_IO_IN'])
+    for ixa, ixc, ibl, want in ((10, 5000, 837, 827), (5, 100, 837, 100), (5, 16709, 16709, 16704)):
+        hy = []
+        for name, val in (('ixa', ixa), ('ixb', ixa), ('ixc', ixc), ('ibuf_len', ibl), ('iomode', cv['BR_IO_IN']), ('shutdown_recv', 0)):
+            o, sz = off(name)
+            for x in U.field_loads(fn, 0, o):
+                hy.append(dict(kind='pin', n=x['n'], value=val))
+        Fo = U.optimise(fn, hy, ())
+        okk, det = fold.expect_stores_only(Fo, 1, 0, {want}, need=True)
+        inst = 'recvrec_buf: ixa = %d, %d bytes expected, buffer of %d bytes => %d bytes offered' % (ixa, ixc, ibl, want)
+        if okk:
+            chk.ok(rule, inst, S, det)
+        else:
+            chk.violation(rule, inst, S, det + ': the region offered to the transport is not clamped to the input buffer', key='%s %d %d %d' % (rule, ixa, ixc, ibl))
+
+
 def ready_state(chk, rule='engine-ready-state'):
     """make_ready_in: the input window is empty and exactly a 5-byte header is awaited; make_ready_out: the payload window starts
     where the method says, never exceeds max_frag_len and oxc marks its start.  Decided on the O2 form of the two functions."""
